@@ -188,7 +188,7 @@ def _wrapper_sweep(maxd):
 
 def generate(rng, tier):
     import random
-    n = 20 if tier == "quick" else 150
+    n = 20 if tier == "quick" else 120
     cases = [_wrapper_sweep(4 if tier == "quick" else 6)]
     for i in range(n):
         desc = G.gen_desc(rng, big=(tier != "quick" and i % 5 == 0))
